@@ -97,6 +97,27 @@ Theorem C07_cross_index_nonce_refuted :
 Proof. exact cross_index_nonce_refuted. Qed.
 Print Assumptions C07_cross_index_nonce_refuted.
 
+(** Ethereum transactions.  The EVM is not modelled (receipt status and gas used are inputs); the
+    accounting around it is: a FAILED Ethereum transaction leaves nothing but the sender's nonce and
+    the fee gasUsed * gasPrice, paid to the coinbase - and nothing at all besides the nonce when no
+    gas was used (rejected by the state transition before the EVM runs: nonce, funds, intrinsic gas) *)
+Theorem C07_eth_failed_frame : forall cb b n t b' n',
+  eo_ok t = false -> eth_apply cb (b, n) t = (b', n') ->
+  (forall a, a <> eo_from t -> a <> cb -> b' a = b a) /\
+  (eo_from t <> cb -> b' (eo_from t) = b (eo_from t) - eo_gas_used t * eo_price t /\
+                      b' cb = b cb + eo_gas_used t * eo_price t) /\
+  (eo_from t = cb -> b' cb = b cb) /\
+  (forall a, n' a = if (a =? eo_from t)%N then wrap64 (eo_nonce t + 1) else n a) /\
+  (eo_gas_used t = 0 -> forall a, b' a = b a).
+Proof. exact eth_failed_frame. Qed.
+Print Assumptions C07_eth_failed_frame.
+
+Theorem C07_eth_conserves : forall dom cb b n t b' n', NoDup dom -> In (eo_from t) dom -> In cb dom ->
+  (forall r, eo_to t = Some r -> In r dom) ->
+  eth_apply cb (b, n) t = (b', n') -> sumb dom b' = sumb dom b.
+Proof. exact eth_conserves. Qed.
+Print Assumptions C07_eth_conserves.
+
 Theorem C07_view_pure : forall c e s t, fst (view_tx c e s t) = s.
 Proof. exact view_pure. Qed.
 Print Assumptions C07_view_pure.
